@@ -61,15 +61,29 @@ class HistogramCollection(Container[Histogram1D], ObjectWithBinning):
     def __len__(self):
         return len(self.histograms)
 
+    def _align(self) -> None:
+        """Bring members over an adaptive binning (they grow separately) to common bins."""
+        if self.histograms and self.binning.is_adaptive():
+            template = self.sum().copy(include_frequencies=False)
+            for histogram in self.histograms:
+                if not histogram.binning == template.binning:
+                    histogram += template  # Adds nothing but the missing (empty) bins
+            self._binning = self.histograms[0].binning.copy()
+
     def copy(self) -> "HistogramCollection":
         # TODO: The binnings are probably not consistent in the copies
+        self._align()
         binning_copy = self.binning.copy()
         histograms = [h.copy() for h in self.histograms]
         if not binning_copy.is_adaptive():
             # (Adaptive binnings change in place with their histogram, each keeps its own)
             for histogram in histograms:
                 histogram._binning = binning_copy
-        return HistogramCollection(*histograms, title=self.title, name=self.name)
+        a_copy = HistogramCollection(
+            binning=binning_copy, title=self.title, name=self.name
+        )
+        a_copy.histograms = histograms
+        return a_copy
 
     @property
     def binning(self) -> BinningBase:
@@ -98,6 +112,7 @@ class HistogramCollection(Container[Histogram1D], ObjectWithBinning):
         histogram = Histogram1D(binning=self.binning, name=name, **init_kwargs)
         histogram.fill_n(values, weights=weights, dropna=dropna)
         self.histograms.append(histogram)
+        self._align()
         return histogram
 
     def __getitem__(self, item) -> Histogram1D:
@@ -120,6 +135,7 @@ class HistogramCollection(Container[Histogram1D], ObjectWithBinning):
 
         Note: If a bin is zero in all collections, the result will be inf.
         """
+        self._align()
         col = self if inplace else self.copy()
         sums = self.sum().frequencies
         for h in col.histograms:
@@ -131,6 +147,9 @@ class HistogramCollection(Container[Histogram1D], ObjectWithBinning):
     def normalize_all(self, inplace: bool = False) -> "HistogramCollection":
         """Normalize all histograms so that total content of each of them is equal to 1.0."""
         col = self if inplace else self.copy()
+        if any(h.total == 0 for h in col.histograms):
+            # (Before the first member is changed)
+            raise ZeroDivisionError("Cannot normalize an empty histogram.")
         for h in col.histograms:
             h.normalize(inplace=True)
         return col
@@ -195,6 +214,7 @@ class HistogramCollection(Container[Histogram1D], ObjectWithBinning):
         return HistogramCollection(*histogram_list, **kwargs)
 
     def to_dict(self) -> Dict[str, Any]:
+        self._align()
         return {
             "histogram_type": "histogram_collection",
             "name": self.name,
